@@ -1386,6 +1386,10 @@ def _memmap_(
                 if to_pickle:
                     with open(prefix / "other.pickle", "wb") as pickle_file:
                         pickle.dump(to_pickle, pickle_file)
+                elif os.path.exists(prefix / "other.pickle"):
+                    # left by an earlier save in this directory: it would override
+                    # the values just written
+                    os.remove(prefix / "other.pickle")
 
         if executor is None:
             save_metadata()
